@@ -640,6 +640,29 @@ def rule_n9(ctx):
                   f"for a `{kind}` term under negate={negate} the function builds {got} instead of {expected}: e.g. `not (or a b)` must become `(and (not a) (not b))`", "De Morgan / quantifier duality")
 
 
+def rule_n10(ctx, prefix="N10"):
+    """Substitution never drops a tree quantifier: `forall x in t: phi` with x not free in phi is NOT phi - it holds vacuously when t has no element of x's type
+    (and `exists x in t: phi` is false then).  Every return of a quantifier's substitute_* method must rebuild the same quantifier."""
+    m = ctx.repo.module(LANG, f"C09.{prefix}")
+    n = 0
+    for cls in ("ForallFormula", "ExistsFormula", "ForallIntFormula", "ExistsIntFormula"):
+        for meth in ("substitute_expressions", "substitute_variables"):
+            fn = m.get(f"{cls}.{meth}")
+            if not isinstance(fn, ast.FunctionDef):
+                continue
+            construct = f"{LANG}:{cls}.{meth}"
+            for r in [x for x in walk_local(fn) if isinstance(x, ast.Return)]:
+                n += 1
+                v = r.value
+                rebuilt = isinstance(v, ast.Call) and call_name(v) in (cls, f"type(self)", "self.__class__")
+                ctx.check(rebuilt, f"{prefix}-quantifier-kept", construct, f"return {src(v)[:40]} rebuilds {cls}", site(r),
+                          f"the method can return `{' '.join(src(v).split())[:60]}` instead of a {cls}: the quantifier is dropped (e.g. when its variable does not occur in the body), but over a tree without "
+                          f"any element of the bound type a universal formula is vacuously TRUE and an existential one FALSE, whatever the body says - "
+                          "evaluate('forall <digit> d in start: exists <var> v in start: v = \"z\"') on 'a := b' answers FALSE", f"always a {cls}")
+    if n < 6:
+        raise Unrecognised(f"C09.{prefix}", LANG, f"only {n} returns of quantifier substitution methods found")
+
+
 def rule_n8(ctx):
     """Renaming / substitution maps are applied SIMULTANEOUSLY: no substitute_* method folds the map entry by entry over an accumulator
     (a chained map {v0 -> v1, v1 -> v2}, as ensure_unique_bound_variables produces, would collapse v0 and v1)."""
@@ -679,6 +702,7 @@ def rule_n8(ctx):
 def run(ctx) -> str:
     ctx.guarded("N8", lambda: rule_n8(ctx))
     ctx.guarded("N9", lambda: rule_n9(ctx))
+    ctx.guarded("N10", lambda: rule_n10(ctx))
     ctx.guarded("N7", lambda: rule_n7(ctx))
     ctx.guarded("N1", lambda: rule_n1(ctx))
     ctx.guarded("N2", lambda: rule_n2(ctx))
